@@ -53,4 +53,11 @@ def overrideParsePaths : List (List String × String) := [
   (["if err != nil"], "err"),
   ([], "nil")
 ]
+/-- return paths of ParamRef (internal/sql/validate/param_ref.go) -/
+def paramRefPaths : List (List String × String) := [
+  (["for i := 1; i <= len(seen); i += 1", "if _, ok := seen[i]; !ok"], "&<lit>"),
+  ([], "nil")
+]
+/-- body of ParamRef (internal/sql/validate/param_ref.go), one entry per top-level statement, blanks collapsed -/
+def paramRefBody : List String := ["var allrefs []*ast.ParamRef", "astutils.Walk(astutils.VisitorFunc(func(node ast.Node) { switch n := node.(type) { case *ast.ParamRef: allrefs = append(allrefs, n) } }), n)", "seen := map[int]struct{}{}", "for _, r := range allrefs { seen[r.Number] = struct{}{} }", "for i := 1; i <= len(seen); i += 1 { if _, ok := seen[i]; !ok { return &sqlerr.Error{ Code: \"42P18\", Message: fmt.Sprintf(\"could not determine data type of parameter $%d\", i), } } }", "return nil"]
 end Sqlc.Gen
